@@ -104,6 +104,13 @@ type Str struct {
 	B string
 }
 type I interface{ M() }
+type Rdr interface{ Read(p []byte) (int, error) }
+type Clo interface{ Close() error }
+type RdClo interface {
+	Rdr
+	Clo
+}
+type E = interface{}
 `
 
 var itab = map[string]string{
@@ -159,13 +166,18 @@ var typeOnlyLeaves = []string{
 	"interface{ M() }", "interface{ M(); N() int }", "struct{}", "*A", "[]A", "map[A]A", "func(A) A", "[2]A",
 	"gen.Pair[string, bool]", "gen.Pair[int, int]", "gen.L[A]", "gen.L[gen.L[int]]", "gen.L[gen.L[string]]",
 	"vsuf.T", "msuf.T", "vpre.T", "xven.T", "vtmpl.Template", "vsuf.U",
+	// one method set, several spellings (embedding structure, method order) and their near misses
+	"interface{ I }", "interface{ interface{ M() } }", "interface{ interface{} }", "interface{ any }", "interface{ E }",
+	"interface{ Rdr; Clo }", "interface{ Rdr; Close() error }", "interface{ Read(p []byte) (int, error); Close() error }",
+	"interface{ Close() error; Rdr }", "interface{ RdClo }", "interface{ Clo }", "interface{ Close() error }", "interface{ Rdr }",
+	"interface{ I; N() int }", "interface{ N() int; M() }",
 }
 
 // what a type-only leaf is confusable with, to produce patterns for them
 var confusable = map[string][]string{
 	"int": {"A", "N", "int32", "string"}, "A": {"int", "N"}, "string": {"int", "bool"}, "byte": {"uint8", "int"}, "uint8": {"byte", "int32"},
 	"rune": {"int32", "int"}, "int32": {"rune", "int"}, "ta.Template": {"tb.Template", "ATa", "ta.Other", "vtmpl.Template"}, "tb.Template": {"ta.Template", "ATa", "vtmpl.Template"},
-	"lib.T": {"vlib.T", "lib.U", "vlib.U", "vsuf.T", "msuf.T", "vpre.T", "xven.T"}, "lib.U": {"vlib.U", "lib.T", "vsuf.U"}, "N": {"int", "A"}, "interface{}": {"any", "I", "interface{ M() }", "error"},
+	"lib.T": {"vlib.T", "lib.U", "vlib.U", "vsuf.T", "msuf.T", "vpre.T", "xven.T"}, "lib.U": {"vlib.U", "lib.T", "vsuf.U"}, "N": {"int", "A"}, "interface{}": {"any", "I", "interface{ M() }", "error", "interface{ interface{} }", "interface{ E }"},
 	"error": {"interface{}", "I"}, "I": {"interface{ M() }", "interface{}"}, "Str": {"struct{}", "N"}, "bool": {"int"}, "float64": {"int"},
 	"unsafe.Pointer": {"AP", "int"}, "ta.Other": {"ta.Template", "int"},
 	// instantiations of one generic type (same TypeName object, different type arguments) and the near misses of a vendored copy
@@ -174,6 +186,18 @@ var confusable = map[string][]string{
 	"gen.L[gen.L[int]]": {"gen.L[gen.L[string]]", "gen.L[int]"}, "gen.L[A]": {"gen.L[int]", "gen.L[string]"},
 	"vlib.T": {"lib.T", "vsuf.T", "msuf.T", "vpre.T", "xven.T"}, "vsuf.T": {"lib.T", "vlib.T"}, "msuf.T": {"lib.T", "vlib.T"},
 	"vpre.T": {"lib.T", "vlib.T"}, "xven.T": {"lib.T", "vlib.T"}, "vtmpl.Template": {"ta.Template", "tb.Template"},
+	// identical interface types spelled with another embedding structure / method order, and interfaces one method apart
+	"interface{ M() }":          {"interface{ I }", "interface{ interface{ M() } }", "interface{ I; N() int }"},
+	"interface{ I }":            {"interface{ M() }", "I", "interface{ interface{ M() } }", "interface{ E }"},
+	"interface{ M(); N() int }": {"interface{ I; N() int }", "interface{ N() int; M() }", "interface{ I }"},
+	"interface{ I; N() int }":   {"interface{ M(); N() int }", "interface{ N() int; M() }"},
+	"any":                       {"interface{ interface{} }", "interface{ any }", "interface{ E }", "interface{ I }"},
+	"interface{ interface{} }":  {"any", "interface{ any }", "interface{ I }"},
+	"interface{ Rdr; Clo }":     {"interface{ Rdr; Close() error }", "interface{ Read(p []byte) (int, error); Close() error }", "interface{ RdClo }", "RdClo", "interface{ Rdr }", "interface{ Clo }"},
+	"interface{ RdClo }":        {"interface{ Rdr; Clo }", "interface{ Close() error; Rdr }", "RdClo", "interface{ Clo }"},
+	"interface{ Clo }":          {"interface{ Close() error }", "Clo", "interface{ Rdr }"},
+	"interface{ Close() error }": {"interface{ Clo }", "interface{ Rdr }"},
+	"interface{ Rdr; Close() error }": {"interface{ Rdr; Clo }", "interface{ Close() error; Rdr }", "interface{ Rdr }"},
 }
 
 // leaves used only by hand-written patterns: a generic type name and qualified alias names (recorded findings)
@@ -902,6 +926,10 @@ var fixedTypes = []string{
 	"vsuf.T", "msuf.T", "vpre.T", "xven.T", "*vsuf.T", "[]msuf.T", "func(vpre.T) xven.T", "vsuf.U", "vtmpl.Template", "*vtmpl.Template",
 	"map[string]vsuf.T", "func(lib.T, vsuf.T)", "vnest.T", "*vnest.T", "vroot.T",
 	"[8]int", "[10]int", "[16]int", "[3]int", "[15]string", "[0]int", "[1]int",
+	// the empty interface and a one-method interface under every spelling
+	"interface{ interface{} }", "interface{ any }", "interface{ E }", "E", "interface{ interface{ interface{} } }", "interface{ I }",
+	"interface{ interface{ M() } }", "[]interface{ any }", "map[string]interface{ interface{} }", "func(interface{ E }) any",
+	"func(a, b int, s string)", "func(a int, b string) (r string, n int)", "struct{ F0, F1 int; F2 string }",
 }
 
 // Near-miss pairs for REPEATED variables: two types that a careless identity test confuses (instantiations of one generic
@@ -925,6 +953,21 @@ var pairCat = []struct {
 	{"*int", "AP", true}, {"*int", "*N", true}, {"unsafe.Pointer", "uintptr", true}, {"struct{ F0 int }", "struct{ F0 int `k:\"v\"` }", true},
 	{"struct{ F0 int }", "struct{ F1 int }", true}, {"map[string]int", "AM", false}, {"map[string]int", "map[string]N", false},
 	{"error", "interface{ Error() string }", true}, {"int", "uint", true}, {"float64", "float32", true}, {"string", "[]byte", false},
+	// identical although spelled differently: interface identity is the method set, not the embedding structure / method order;
+	// parameter names and grouping, field grouping
+	{"interface{ Rdr; Close() error }", "interface{ Read(p []byte) (int, error); Close() error }", true},
+	{"interface{ Rdr; Clo }", "interface{ Read([]byte) (int, error); Close() error }", true}, {"interface{ Rdr; Clo }", "interface{ RdClo }", true},
+	{"interface{ Rdr; Clo }", "interface{ Clo; Rdr }", true}, {"interface{ Clo }", "interface{ Close() error }", true},
+	{"interface{ I }", "interface{ M() }", true}, {"interface{ I; N() int }", "interface{ N() int; M() }", true},
+	{"interface{}", "interface{ interface{} }", true}, {"any", "interface{ any }", true}, {"interface{ E }", "interface{ interface{ interface{} } }", true},
+	{"interface{ error }", "interface{ Error() string }", true}, {"interface{ M(); N() int }", "interface{ N() int; M() }", true},
+	{"func(a, b int)", "func(int, int)", false}, {"func(x int) (r string)", "func(int) string", false},
+	{"struct{ F0, F1 int }", "struct{ F0 int; F1 int }", true}, {"*interface{ I }", "*interface{ M() }", true},
+	{"[]interface{ Clo }", "[]interface{ Close() error }", false}, {"func(interface{ Rdr; Clo })", "func(interface{ RdClo })", false},
+	// ... and their near misses (one method apart, a named interface and its literal, same names in another order of the results)
+	{"interface{ Rdr; Clo }", "interface{ Rdr }", true}, {"interface{ Clo }", "Clo", true}, {"interface{ RdClo }", "RdClo", true},
+	{"interface{ I }", "interface{ E }", true}, {"interface{ I; N() int }", "interface{ I; N() string }", true},
+	{"interface{ Rdr; Clo }", "interface{ Rdr; Close() }", true},
 }
 
 // patterns that bind both members of a pair to one variable
@@ -1032,7 +1075,7 @@ func main() {
 		if strings.Contains(typeExprs[j], "vnest.") || strings.Contains(typeExprs[j], "vroot.") {
 			continue // recorded finding (nested vendor directories): exercised by the direct section only
 		}
-		if j < 70 || (j >= pairFrom && j < pairTo) || (j >= len(fixedTypes)-22 && j < len(fixedTypes)) {
+		if j < 70 || (j >= pairFrom && j < pairTo) || (j >= len(fixedTypes)-35 && j < len(fixedTypes)) {
 			engIdx = append(engIdx, j)
 		}
 	}
